@@ -31,6 +31,7 @@ RULE = (
     "case = mapping config (Parent/Child/SubChild/Tag with nullable or NOT NULL FK, natural key with ON UPDATE CASCADE, post_update "
     "favourite; or adjacency-list Node) + history of <=40 ops with few intermediate flushes. Non-trivial: some flush emitted >=3 DML "
     "statements over >=2 dependent tables (or >=2 statements on the self-referential table) and contained a delete or a re-parenting, "
+    "or the scenario class in which an orphan carrying loaded dependents enters the flush only while a deleted parent is pre-sorted, "
     "or a flush in which a persistent row hands a primary-key / UNIQUE (single or composite) value over to a new row of the same table; "
     "distinct = canonical JSON of (config, ops)"
 )
